@@ -77,6 +77,7 @@ pub enum Fam {
     Thresholds,
     Numbers,
     Nested,
+    Exact,
 }
 
 pub fn members(f: Fam, k: usize, dup: bool) -> Vec<RVal> {
@@ -98,6 +99,7 @@ pub fn members(f: Fam, k: usize, dup: bool) -> Vec<RVal> {
             Fam::Thresholds => RVal::Str(format!(">={}", (i + 1) * 10)),
             Fam::Numbers => RVal::Int((i as i64 + 1) * 10),
             Fam::Nested => RVal::Map(vec![(Key::plain(&format!("a{}", i)), RVal::Str("v".into()))]),
+            Fam::Exact => RVal::Str(format!("t{}.", i)),
         })
         .collect();
     if dup && k >= 1 {
@@ -138,6 +140,11 @@ pub fn value_for(f: Fam, k: usize, mask: u32) -> Option<DVal> {
         Fam::Numbers => match bits.iter().filter(|b| **b).count() {
             0 => Some(DVal::UInt(7)),
             1 => Some(DVal::UInt((bits.iter().position(|b| *b).unwrap() as u64 + 1) * 10)),
+            _ => None,
+        },
+        Fam::Exact => match bits.iter().filter(|b| **b).count() {
+            0 => Some(DVal::s("_t0.")), // ends with a member without being equal to it
+            1 => Some(DVal::Str(format!("t{}.", bits.iter().position(|b| *b).unwrap()))),
             _ => None,
         },
         Fam::Nested => Some(DVal::Obj(bits.iter().enumerate().map(|(i, b)| (format!("a{}", i), DVal::s(if *b { "v" } else { "w" }))).collect())),
@@ -192,6 +199,80 @@ fn check_pair(rep: &mut Report, rf: &Ref, qa: &RuleAst, ea: Option<&RuleAst>, do
     }
 }
 
+/// wide lists (k >= 63): sampled member-truth sets, reference oracle only (writing the rule out
+/// would need a condition nested deeper than the property's bound)
+fn wide(rep: &mut Report, rf: &Ref, f: Fam, k: usize) {
+    let ms = members(f, k, false);
+    let tok = |i: usize| format!("t{}.", i);
+    let mut docs: Vec<(DVal, usize)> = vec![];
+    let sets: Vec<Vec<usize>> = vec![vec![], vec![0], vec![k - 1], vec![k / 2], vec![0, k - 1], vec![62.min(k - 1), k - 1], vec![63.min(k - 1)], (0..k).collect(), (0..k - 1).collect(), (1..k).collect()];
+    for set in sets {
+        let v = match f {
+            Fam::Contains | Fam::IContains | Fam::Regex => Some(DVal::Str(format!("_{}_", set.iter().map(|i| tok(*i)).collect::<String>()))),
+            Fam::Exact => match set.len() {
+                0 => Some(DVal::Str(format!("_{}", tok(k - 1)))),
+                1 => Some(DVal::Str(tok(set[0]))),
+                _ => None,
+            },
+            Fam::Prefixes => {
+                // true members are 0..n
+                let n = set.len();
+                if set.iter().enumerate().all(|(i, x)| i == *x) {
+                    Some(DVal::Str(format!("{}#", (0..n).map(tok).collect::<String>())))
+                } else {
+                    None
+                }
+            }
+            _ => None,
+        };
+        if let Some(v) = v {
+            docs.push((DVal::Obj(vec![("k".into(), v)]), set.len()));
+        }
+    }
+    if f == Fam::Exact {
+        // near misses: ends with / starts with a member
+        docs.push((DVal::Obj(vec![("k".into(), DVal::Str(format!("x{}", tok(k / 2))))]), 0));
+        docs.push((DVal::Obj(vec![("k".into(), DVal::Str(format!("{}x", tok(k - 1))))]), 0));
+    }
+    let kk = k as u64;
+    for q in [Q::Plain, Q::All, Q::Of(0), Q::Of(1), Q::Of(2), Q::Of(kk - 1), Q::Of(kk), Q::Of(kk + 1)] {
+        let qa = RuleAst { idents: vec![("A".into(), Ident::Map(vec![(Key::with("k", kmod(&q)), RVal::List(ms.clone()))]))], cond: Cond::id("A"), tp: vec![], tn: vec![] };
+        for (doc, ntrue) in &docs {
+            let n = match &q {
+                Q::Of(n) => *n,
+                Q::All => kk,
+                Q::Plain => 1,
+            };
+            check_pair_ref_only(rep, rf, &qa, doc, &format!("wide key {:?} {:?} k={}", q, f, k), *ntrue, n);
+        }
+    }
+    rep.count("wide_lists");
+}
+
+fn check_pair_ref_only(rep: &mut Report, rf: &Ref, qa: &RuleAst, doc: &DVal, label: &str, ntrue: usize, n: u64) {
+    let Some(qt) = qa.to_text() else { return };
+    let Some(qr) = eng::load_ok(&qt) else {
+        rep.count("quantified_rule_rejected");
+        return;
+    };
+    let m = to_yaml_map(doc);
+    rep.evaluations += 1;
+    let got = match eng::matches(&qr, &m) {
+        Ok(v) => v,
+        Err(p) => {
+            rep.violation("panic", &format!("panic:{}", p.sig()), &format!("quantified rule panicked: {}", p.sig()), mon::case(&qt, doc, None, json!("no-panic"), json!(p.sig()), json!({})));
+            return;
+        }
+    };
+    rep.nontrivial_key(&format!("{}|{}|{}", label, n, ntrue));
+    let exp = rf.eval_rule(qa, doc);
+    if let Some(w) = refi::verdict(exp) {
+        if w != got {
+            rep.violation("reference", &format!("c08-reference:{}", label), &format!("{}: engine {} , member counting gives {} ({} members true, threshold {}) on {}", label, got, refi::ts_name(exp), ntrue, n, doc.to_json_text().chars().take(120).collect::<String>()), mon::case(&qt, doc, None, json!(w), json!(got), json!({})));
+        }
+    }
+}
+
 fn key_rules(q: &Q, ms: &[RVal]) -> (RuleAst, Option<RuleAst>) {
     let qa = RuleAst { idents: vec![("A".into(), Ident::Map(vec![(Key::with("k", kmod(q)), RVal::List(ms.to_vec()))]))], cond: Cond::id("A"), tp: vec![], tn: vec![] };
     let ea = expansion(q, ms.len()).map(|c| RuleAst { idents: ms.iter().enumerate().map(|(i, m)| (format!("M{}", i), Ident::Map(vec![(Key::plain("k"), m.clone())]))).collect(), cond: c, tp: vec![], tn: vec![] });
@@ -216,7 +297,7 @@ fn ident_rules(q: &Q, entries: &[(Key, RVal)], as_seq: bool) -> (RuleAst, Option
 
 pub fn run(ctx: &Ctx) -> i32 {
     let rf = Ref::default();
-    let fams = [Fam::Contains, Fam::IContains, Fam::Regex, Fam::IRegex, Fam::MixedStrings, Fam::Prefixes, Fam::Thresholds, Fam::Numbers, Fam::Nested];
+    let fams = [Fam::Contains, Fam::IContains, Fam::Regex, Fam::IRegex, Fam::MixedStrings, Fam::Prefixes, Fam::Thresholds, Fam::Numbers, Fam::Nested, Fam::Exact];
     let maxk = ctx.size(4, 5);
     let mut work: Vec<(Fam, usize, bool)> = vec![];
     for f in fams {
@@ -226,12 +307,22 @@ pub fn run(ctx: &Ctx) -> i32 {
             }
         }
     }
+    // wide lists: the per-needle counting changes representation at 64 members
+    for f in [Fam::Contains, Fam::IContains, Fam::Exact, Fam::Prefixes, Fam::Regex] {
+        for k in [63usize, 64, 65, 70, 129] {
+            work.push((f, k, false));
+        }
+    }
     let nw = work.len();
     let rshards = ctx.size(16, 64);
     let rep = par_shards(ctx, nw + rshards, |wi| {
         let mut rep = Report::new();
         if wi < nw {
             let (f, k, dup) = work[wi];
+            if k > 8 {
+                wide(&mut rep, &rf, f, k);
+                return rep;
+            }
             let ms = members(f, k, dup);
             let len = ms.len();
             let mut qs = vec![Q::Plain, Q::All];
